@@ -285,16 +285,20 @@ def resumeFrame (k : CCont) (h : Evm.Halt) : Evm.Frame :=
              returndata := h.data
              pc := k.f.pc + 1 }
 
-/-- the frame of a zero-value call of the given kind from `f` (touched) to `to` -/
-def calleeFrame (kind : Nat) (f : Evm.Frame) (w : Evm.World) (tgt ao al : Nat) : Evm.Frame :=
+/-- the frame of a call of the given kind and value from `f` (touched) to `to` -/
+def calleeFrameV (kind : Nat) (f : Evm.Frame) (w : Evm.World) (tgt v ao al : Nat) : Evm.Frame :=
   { this := if kind = 0xf1 || kind = 0xfa then tgt else f.this
     caller := if kind = 0xf4 then f.caller else f.this
-    value := if kind = 0xf4 then f.value else 0
+    value := if kind = 0xf4 then f.value else v
     calldata := Evm.readBytes f.mem ao al
     code := (w.codeOf tgt).getD []
     codeAddr := tgt
     isStatic := f.isStatic || kind = 0xfa
     depth := f.depth + 1 }
+
+/-- the zero-value case -/
+def calleeFrame (kind : Nat) (f : Evm.Frame) (w : Evm.World) (tgt ao al : Nat) : Evm.Frame :=
+  calleeFrameV kind f w tgt 0 ao al
 
 theorem exec_call0 {p : Evm.Params} {w w1 : Evm.World} {f f1 : Evm.Frame} {kind tgt ao al ro rl : Nat}
     (hs : Evm.step p w f = .call kind w1 f1 tgt 0 ao al ro rl) (hm1 : Evm.memOk p ao al = true)
@@ -305,7 +309,7 @@ theorem exec_call0 {p : Evm.Params} {w w1 : Evm.World} {f f1 : Evm.Frame} {kind 
           (resumeFrame ⟨w1, (f1.touch ao al).touch ro rl, ro, rl⟩ r.2) := by
   rw [Evm.exec]
   simp only [hs, hm1, hm2, hd, Bool.not_true, Bool.or_self, Bool.false_eq_true, if_false, ne_eq, not_true_eq_false,
-    decide_false, Bool.and_false, Bool.false_and, calleeFrame, resumeWorld, resumeFrame]
+    decide_false, Bool.and_false, Bool.false_and, calleeFrame, calleeFrameV, resumeWorld, resumeFrame]
   split
   · rename_i heq; rw [heq]; rfl
   · rename_i w2 h heq; rw [heq]; rfl
@@ -366,6 +370,104 @@ theorem halts_call_oog {v : Nat} (hs : Evm.step p w f = .call kind w1 f1 tgt v a
     | zero => simp [Evm.exec] at e
     | succ n => rw [exec_call_oog hs hm] at e; exact (Option.some.inj e).symm
   · rintro rfl; exact ⟨1, exec_call_oog hs hm 0⟩
+
+end
+
+/-! ### a call with a value -/
+
+/-- the world the callee starts in: a CALL with a non-zero value has moved it -/
+def callWorld (kind : Nat) (w : Evm.World) (me tgt v : Nat) : Evm.World :=
+  if (decide (kind = 0xf1) && decide (v ≠ 0)) = true then w.transfer me tgt v else w
+
+/-- the caller after a call that could not be made (insufficient funds, depth): flag 0, no return data -/
+def failFrame (f : Evm.Frame) : Evm.Frame :=
+  { f with stack := 0 :: f.stack, returndata := [], pc := f.pc + 1 }
+
+section
+variable {p : Evm.Params} {w w1 : Evm.World} {f f1 : Evm.Frame} {kind tgt v ao al ro rl : Nat}
+
+theorem exec_callv (hs : Evm.step p w f = .call kind w1 f1 tgt v ao al ro rl) (hm1 : Evm.memOk p ao al = true)
+    (hm2 : Evm.memOk p ro rl = true)
+    (hstat : (decide (kind = 0xf1) && ((f1.touch ao al).touch ro rl).isStatic && decide (v ≠ 0)) = false)
+    (hfund : ((decide (kind = 0xf1) || decide (kind = 0xf2)) && decide (v ≠ 0) &&
+      decide (w1.balanceOf ((f1.touch ao al).touch ro rl).this < v)) = false)
+    (hd : ¬ ((f1.touch ao al).touch ro rl).depth + 1 > p.maxDepth) (n : Nat) :
+    Evm.exec p (n + 1) w f =
+      (Evm.exec p n (callWorld kind w1 ((f1.touch ao al).touch ro rl).this tgt v)
+          (calleeFrameV kind ((f1.touch ao al).touch ro rl) w1 tgt v ao al)).bind fun r =>
+        Evm.exec p n (resumeWorld ⟨w1, (f1.touch ao al).touch ro rl, ro, rl⟩ r)
+          (resumeFrame ⟨w1, (f1.touch ao al).touch ro rl, ro, rl⟩ r.2) := by
+  rw [Evm.exec]
+  simp only [hs, hm1, hm2, hstat, hfund, hd, Bool.not_true, Bool.or_self, Bool.false_eq_true, if_false,
+    calleeFrameV, callWorld, resumeWorld, resumeFrame]
+  split
+  · rename_i heq; rw [heq]; rfl
+  · rename_i w2 h heq; rw [heq]; rfl
+
+/-- insufficient funds: the caller continues with flag 0 -/
+theorem exec_call_insufficient (hs : Evm.step p w f = .call kind w1 f1 tgt v ao al ro rl)
+    (hm1 : Evm.memOk p ao al = true) (hm2 : Evm.memOk p ro rl = true)
+    (hstat : (decide (kind = 0xf1) && ((f1.touch ao al).touch ro rl).isStatic && decide (v ≠ 0)) = false)
+    (hfund : ((decide (kind = 0xf1) || decide (kind = 0xf2)) && decide (v ≠ 0) &&
+      decide (w1.balanceOf ((f1.touch ao al).touch ro rl).this < v)) = true) (n : Nat) :
+    Evm.exec p (n + 1) w f = Evm.exec p n w1 (failFrame ((f1.touch ao al).touch ro rl)) := by
+  rw [Evm.exec]
+  simp only [hs, hm1, hm2, hstat, hfund, Bool.not_true, Bool.or_self, Bool.false_eq_true, if_false, if_true,
+    failFrame]
+
+theorem halts_call_insufficient (hs : Evm.step p w f = .call kind w1 f1 tgt v ao al ro rl)
+    (hm1 : Evm.memOk p ao al = true) (hm2 : Evm.memOk p ro rl = true)
+    (hstat : (decide (kind = 0xf1) && ((f1.touch ao al).touch ro rl).isStatic && decide (v ≠ 0)) = false)
+    (hfund : ((decide (kind = 0xf1) || decide (kind = 0xf2)) && decide (v ≠ 0) &&
+      decide (w1.balanceOf ((f1.touch ao al).touch ro rl).this < v)) = true) (r : Evm.World × Evm.Halt) :
+    Halts p w f r ↔ Halts p w1 (failFrame ((f1.touch ao al).touch ro rl)) r := by
+  constructor
+  · rintro ⟨n, e⟩
+    cases n with
+    | zero => simp [Evm.exec] at e
+    | succ n => rw [exec_call_insufficient hs hm1 hm2 hstat hfund] at e; exact ⟨n, e⟩
+  · rintro ⟨n, e⟩
+    exact ⟨n + 1, by rw [exec_call_insufficient hs hm1 hm2 hstat hfund]; exact e⟩
+
+theorem halts_callv (hs : Evm.step p w f = .call kind w1 f1 tgt v ao al ro rl) (hm1 : Evm.memOk p ao al = true)
+    (hm2 : Evm.memOk p ro rl = true)
+    (hstat : (decide (kind = 0xf1) && ((f1.touch ao al).touch ro rl).isStatic && decide (v ≠ 0)) = false)
+    (hfund : ((decide (kind = 0xf1) || decide (kind = 0xf2)) && decide (v ≠ 0) &&
+      decide (w1.balanceOf ((f1.touch ao al).touch ro rl).this < v)) = false)
+    (hd : ¬ ((f1.touch ao al).touch ro rl).depth + 1 > p.maxDepth) {r1 r : Evm.World × Evm.Halt}
+    (h1 : Halts p (callWorld kind w1 ((f1.touch ao al).touch ro rl).this tgt v)
+      (calleeFrameV kind ((f1.touch ao al).touch ro rl) w1 tgt v ao al) r1)
+    (h2 : Halts p (resumeWorld ⟨w1, (f1.touch ao al).touch ro rl, ro, rl⟩ r1)
+      (resumeFrame ⟨w1, (f1.touch ao al).touch ro rl, ro, rl⟩ r1.2) r) :
+    Halts p w f r := by
+  obtain ⟨n1, e1⟩ := h1
+  obtain ⟨n2, e2⟩ := h2
+  refine ⟨max n1 n2 + 1, ?_⟩
+  rw [exec_callv hs hm1 hm2 hstat hfund hd, exec_mono_le (Nat.le_max_left n1 n2) e1]
+  exact exec_mono_le (Nat.le_max_right n1 n2) e2
+
+theorem halts_callv_inv (hs : Evm.step p w f = .call kind w1 f1 tgt v ao al ro rl) (hm1 : Evm.memOk p ao al = true)
+    (hm2 : Evm.memOk p ro rl = true)
+    (hstat : (decide (kind = 0xf1) && ((f1.touch ao al).touch ro rl).isStatic && decide (v ≠ 0)) = false)
+    (hfund : ((decide (kind = 0xf1) || decide (kind = 0xf2)) && decide (v ≠ 0) &&
+      decide (w1.balanceOf ((f1.touch ao al).touch ro rl).this < v)) = false)
+    (hd : ¬ ((f1.touch ao al).touch ro rl).depth + 1 > p.maxDepth) {r : Evm.World × Evm.Halt}
+    (h : Halts p w f r) :
+    ∃ r1, Halts p (callWorld kind w1 ((f1.touch ao al).touch ro rl).this tgt v)
+        (calleeFrameV kind ((f1.touch ao al).touch ro rl) w1 tgt v ao al) r1 ∧
+      Halts p (resumeWorld ⟨w1, (f1.touch ao al).touch ro rl, ro, rl⟩ r1)
+        (resumeFrame ⟨w1, (f1.touch ao al).touch ro rl, ro, rl⟩ r1.2) r := by
+  obtain ⟨n, e⟩ := h
+  cases n with
+  | zero => simp [Evm.exec] at e
+  | succ n =>
+    rw [exec_callv hs hm1 hm2 hstat hfund hd] at e
+    cases hx : Evm.exec p n (callWorld kind w1 ((f1.touch ao al).touch ro rl).this tgt v)
+        (calleeFrameV kind ((f1.touch ao al).touch ro rl) w1 tgt v ao al) with
+    | none => rw [hx] at e; cases e
+    | some r1 =>
+      rw [hx] at e
+      exact ⟨r1, ⟨n, hx⟩, ⟨n, e⟩⟩
 
 end
 
@@ -433,6 +535,52 @@ theorem runStack_call {w w1 : Evm.World} {f f1 : Evm.Frame} {kind tgt ao al ro r
       exact ⟨r1, h1, r2, h1', h3⟩
     · rintro ⟨r1, h1, r2, h1', h3⟩
       exact ⟨r2, halts_call hs hm1 hm2 hd h1 h1', h3⟩
+
+/-- a call with a value: the callee runs in the world after the transfer, on top of the suspended caller (whose saved
+    world is the one before it) -/
+theorem runStack_callv {w w1 : Evm.World} {f f1 : Evm.Frame} {kind tgt v ao al ro rl : Nat}
+    (hs : Evm.step p w f = .call kind w1 f1 tgt v ao al ro rl) (hm1 : Evm.memOk p ao al = true)
+    (hm2 : Evm.memOk p ro rl = true)
+    (hstat : (decide (kind = 0xf1) && ((f1.touch ao al).touch ro rl).isStatic && decide (v ≠ 0)) = false)
+    (hfund : ((decide (kind = 0xf1) || decide (kind = 0xf2)) && decide (v ≠ 0) &&
+      decide (w1.balanceOf ((f1.touch ao al).touch ro rl).this < v)) = false)
+    (hd : ¬ ((f1.touch ao al).touch ro rl).depth + 1 > p.maxDepth)
+    (ks : List CCont) (r : Evm.World × Evm.Halt) :
+    RunStack p w f ks r ↔
+      RunStack p (callWorld kind w1 ((f1.touch ao al).touch ro rl).this tgt v)
+        (calleeFrameV kind ((f1.touch ao al).touch ro rl) w1 tgt v ao al)
+        (⟨w1, (f1.touch ao al).touch ro rl, ro, rl⟩ :: ks) r := by
+  cases ks with
+  | nil =>
+    simp only [RunStack]
+    constructor
+    · exact halts_callv_inv hs hm1 hm2 hstat hfund hd
+    · rintro ⟨r1, h1, h2⟩; exact halts_callv hs hm1 hm2 hstat hfund hd h1 h2
+  | cons k ks =>
+    simp only [RunStack]
+    constructor
+    · rintro ⟨r2, h2, h3⟩
+      obtain ⟨r1, h1, h1'⟩ := halts_callv_inv hs hm1 hm2 hstat hfund hd h2
+      exact ⟨r1, h1, r2, h1', h3⟩
+    · rintro ⟨r1, h1, r2, h1', h3⟩
+      exact ⟨r2, halts_callv hs hm1 hm2 hstat hfund hd h1 h1', h3⟩
+
+/-- a call the caller cannot pay for: it goes on with flag 0 -/
+theorem runStack_call_insufficient {w w1 : Evm.World} {f f1 : Evm.Frame} {kind tgt v ao al ro rl : Nat}
+    (hs : Evm.step p w f = .call kind w1 f1 tgt v ao al ro rl) (hm1 : Evm.memOk p ao al = true)
+    (hm2 : Evm.memOk p ro rl = true)
+    (hstat : (decide (kind = 0xf1) && ((f1.touch ao al).touch ro rl).isStatic && decide (v ≠ 0)) = false)
+    (hfund : ((decide (kind = 0xf1) || decide (kind = 0xf2)) && decide (v ≠ 0) &&
+      decide (w1.balanceOf ((f1.touch ao al).touch ro rl).this < v)) = true)
+    (ks : List CCont) (r : Evm.World × Evm.Halt) :
+    RunStack p w f ks r ↔ RunStack p w1 (failFrame ((f1.touch ao al).touch ro rl)) ks r := by
+  cases ks with
+  | nil => exact halts_call_insufficient hs hm1 hm2 hstat hfund r
+  | cons k ks =>
+    simp only [RunStack]
+    constructor
+    · rintro ⟨r1, h1, h2⟩; exact ⟨r1, (halts_call_insufficient hs hm1 hm2 hstat hfund r1).1 h1, h2⟩
+    · rintro ⟨r1, h1, h2⟩; exact ⟨r1, (halts_call_insufficient hs hm1 hm2 hstat hfund r1).2 h1, h2⟩
 
 /-- a call that fails the reference's memory check: the running frame halts with OutOfGas -/
 theorem runStack_call_oog_nil {w w1 : Evm.World} {f f1 : Evm.Frame} {kind tgt v ao al ro rl : Nat}
